@@ -1,8 +1,538 @@
-//! C08 - not built yet
+//! C08 - sender link credit: never exceed granted credit; one credit per delivery; drain; blocked
+//! sends always wake.
+//!
+//! History search: real `Sender` (client side) against a scripted receiver that produces every history
+//! of link flows interleaved with send attempts.  Schedule exploration (with the in-poll preempt point
+//! between the failed credit check and the start of the wait): a grant racing with a blocked send.
+use crate::scen::{self, SendCmd};
+use fe2o3_amqp::link::Sender;
+use fe2o3_amqp::Session;
+use fe2o3_amqp_types::definitions::{Handle, SenderSettleMode};
+use fe2o3_amqp_types::performatives::*;
+use serde_json::json;
+use std::sync::Arc;
+use std::time::{Duration, Instant};
+use vlib::explore::{explore, Bounds};
+use vlib::history::{search, HistOut};
+use vlib::peer::{drive, settle, trace_to_strings, Auto, Body, Dirn, WFrame};
 use vlib::report::{Ctx, Outcome};
+use vlib::runner::{run_exec, RunCfg, Scenario};
+use vlib::tape::Kind;
+use vlib::util::h64;
 
-pub fn run(_ctx: &Ctx) -> Outcome {
+#[derive(Debug, Clone, Copy, PartialEq, Eq, Hash)]
+pub enum Ev {
+    /// application queues a 1-frame message
+    A1,
+    /// application queues a message the transport splits into 3 frames
+    A3,
+    /// receiver flows: link-credit = n, delivery-count = what it has seen
+    F0,
+    F1,
+    F2,
+    /// link-credit 1, delivery-count unset
+    F1Unset,
+    /// link-credit 2 with a stale delivery-count (one behind what the receiver has by now)
+    F2Stale,
+    /// link-credit 0 with a stale delivery-count: the receiver revoked credit before it saw the last delivery
+    F0Stale,
+    /// drain with link-credit 2
+    D2,
+    /// echo with link-credit 1
+    E1,
+}
+pub const ALPHABET: [Ev; 10] = [Ev::A1, Ev::F1, Ev::F2, Ev::A3, Ev::F0, Ev::D2, Ev::F2Stale, Ev::F0Stale, Ev::F1Unset, Ev::E1];
+
+#[derive(Debug, Clone, Default)]
+pub struct Obs {
+    pub executed: usize,
+    pub fails: Vec<(String, String)>,
+    pub state_keys: Vec<u64>,
+    pub trace: Vec<String>,
+    pub machinery: Option<String>,
+    pub multi_frame_deliveries: usize,
+    pub blocked_then_woken: usize,
+}
+
+/// serial-number difference a - b as a signed quantity
+fn sdiff(a: u32, b: u32) -> i64 {
+    (a.wrapping_sub(b) as i32) as i64
+}
+
+/// deliveries the library has started so far on (channel 0, its handle): number of transfer frames that begin a delivery
+fn deliveries_started(trace: &[WFrame], lib_handle: u32) -> (usize, usize) {
+    let mut n = 0;
+    let mut multi = 0;
+    let mut in_progress = false;
+    for w in trace {
+        if w.dir != Dirn::FromLib {
+            continue;
+        }
+        if let Body::Perf(Performative::Transfer(t)) = &w.body {
+            if t.handle.0 != lib_handle {
+                continue;
+            }
+            if !in_progress {
+                n += 1;
+                if t.more {
+                    multi += 1;
+                }
+            }
+            in_progress = t.more;
+        }
+    }
+    (n, multi)
+}
+
+/// the sender's delivery-count as visible on the wire: initial value, +1 per delivery started, and whatever
+/// the sender itself reports in a flow (a drain advances it).  Returns (count before each delivery, final count).
+fn sender_counts(trace: &[WFrame], lib_handle: u32, idc: u32) -> (Vec<u32>, u32) {
+    let mut dc = idc;
+    let mut before = vec![];
+    let mut in_progress = false;
+    for w in trace {
+        if w.dir != Dirn::FromLib {
+            continue;
+        }
+        match &w.body {
+            Body::Perf(Performative::Transfer(t)) if t.handle.0 == lib_handle => {
+                if !in_progress {
+                    before.push(dc);
+                    dc = dc.wrapping_add(1);
+                }
+                in_progress = t.more;
+            }
+            Body::Perf(Performative::Flow(f)) if f.handle.as_ref().map(|h| h.0) == Some(lib_handle) => {
+                if let Some(x) = f.delivery_count {
+                    dc = x;
+                }
+            }
+            _ => {}
+        }
+    }
+    (before, dc)
+}
+
+pub async fn scenario(idc: u32, events: Vec<Ev>) -> Obs {
+    let mut obs = Obs::default();
+    let mut auto = Auto::default();
+    auto.max_frame_size = 512;
+    auto.accept_transfers = true;
+    auto.incoming_window = 100_000;
+    let mut c = match scen::open_client(auto, 512).await {
+        Ok(c) => c,
+        Err(e) => {
+            obs.machinery = Some(e);
+            return obs;
+        }
+    };
+    let mut session = match scen::begin(&mut c, Session::builder()).await {
+        Ok(s) => s,
+        Err(e) => {
+            obs.machinery = Some(e);
+            return obs;
+        }
+    };
+    let sender = drive(
+        &mut c.peer,
+        Sender::builder()
+            .name("s1")
+            .target("q")
+            .sender_settle_mode(SenderSettleMode::Unsettled)
+            .initial_delivery_count(idc)
+            .attach(&mut session),
+        scen::H,
+    )
+    .await;
+    let sender = match sender {
+        Some(Ok(s)) => s,
+        other => {
+            obs.machinery = Some(format!("attach failed: {:?}", other.map(|r| r.map(|_| ()).map_err(|e| e.to_string()))));
+            return obs;
+        }
+    };
+    let lib_handle = c.peer.links.last().map(|l| l.lib_handle).unwrap_or(0);
+    let our_handle = c.peer.links.last().map(|l| l.our_handle).unwrap_or(0);
+    let (tx, log, _task) = scen::spawn_sender_task(sender);
+    settle(&mut c.peer, 1).await;
+    // receiver-side truth
+    let mut limit: Option<u32> = None; // delivery-count + link-credit of the last flow sent
+    let mut queued = 0usize; // send commands issued
+    let mut was_blocked = false;
+    obs.state_keys.push(h64(&(0, 0, 0)));
+    for (i, ev) in events.iter().enumerate() {
+        let rcv_dc = c.peer.links.iter().find(|l| l.lib_handle == lib_handle).map(|l| l.delivery_count).unwrap_or(idc);
+        let (started_before, _) = deliveries_started(&c.peer.trace, lib_handle);
+        let enabled = match ev {
+            Ev::F2Stale | Ev::F0Stale => started_before > 0,
+            // a receiver leaves delivery-count unset only while it does not know it yet
+            Ev::F1Unset => started_before == 0 && sender_counts(&c.peer.trace, lib_handle, idc).1 == idc,
+            _ => true,
+        };
+        if !enabled {
+            break;
+        }
+        let mark = c.peer.trace.len();
+        let mut flow_sent: Option<(Option<u32>, u32, bool)> = None;
+        match ev {
+            Ev::A1 => {
+                let _ = tx.send(SendCmd::Send { body_len: 20 });
+                queued += 1;
+            }
+            Ev::A3 => {
+                let _ = tx.send(SendCmd::Send { body_len: 1100 });
+                queued += 1;
+            }
+            _ => {
+                let (dc, credit, drain, echo) = match ev {
+                    Ev::F0 => (Some(rcv_dc), 0, false, false),
+                    Ev::F1 => (Some(rcv_dc), 1, false, false),
+                    Ev::F2 => (Some(rcv_dc), 2, false, false),
+                    Ev::F1Unset => (None, 1, false, false),
+                    Ev::F2Stale => (Some(rcv_dc.wrapping_sub(1)), 2, false, false),
+                    Ev::F0Stale => (Some(rcv_dc.wrapping_sub(1)), 0, false, false),
+                    Ev::D2 => (Some(rcv_dc), 2, true, false),
+                    _ => (Some(rcv_dc), 1, false, true),
+                };
+                let mut f = c.peer.flow_for(0);
+                f.handle = Some(Handle(our_handle));
+                f.delivery_count = dc;
+                f.link_credit = Some(credit);
+                f.drain = drain;
+                f.echo = echo;
+                c.peer.send(0, Performative::Flow(f));
+                // "delivery-count unset": the sender must assume its own initial delivery-count
+                limit = Some(dc.unwrap_or(idc).wrapping_add(credit));
+                flow_sent = Some((dc, credit, drain));
+            }
+        }
+        settle(&mut c.peer, 3).await;
+        obs.executed = i + 1;
+        // ---------------- judge this step
+        let (started_after, multi) = deliveries_started(&c.peer.trace, lib_handle);
+        obs.multi_frame_deliveries = multi;
+        // (1) every delivery started in this step must be within the limit of the last flow
+        let (counts_before, snd_dc) = sender_counts(&c.peer.trace, lib_handle, idc);
+        for k in started_before..started_after {
+            let count_before = counts_before.get(k).copied().unwrap_or(idc.wrapping_add(k as u32));
+            match limit {
+                None => obs.fails.push((
+                    "delivery-without-credit".into(),
+                    format!("delivery #{k} was transmitted although the receiver never granted any credit"),
+                )),
+                Some(l) => {
+                    if sdiff(l, count_before) <= 0 {
+                        obs.fails.push((
+                            format!("credit-exceeded after {:?}", if flow_sent.is_some() { *ev } else { last_flow(&events[..=i]) }),
+                            format!(
+                                "delivery #{k} (delivery-count_snd {count_before}) was transmitted beyond the receiver's limit delivery-count+link-credit = {l} (initial delivery-count {idc})"
+                            ),
+                        ));
+                    }
+                }
+            }
+        }
+        // (2) drain: all credit used up or given back, and the receiver is told so with a zero-credit flow
+        if let Some((_, _, true)) = flow_sent {
+            let l = limit.unwrap();
+            let reply = c.peer.trace[mark..].iter().rev().find_map(|w| match (&w.body, w.dir) {
+                (Body::Perf(Performative::Flow(f)), Dirn::FromLib) if f.handle.as_ref().map(|h| h.0) == Some(lib_handle) => Some(f.clone()),
+                _ => None,
+            });
+            match reply {
+                None => obs.fails.push(("drain-unanswered".into(), "a drain request was not answered with a flow".into())),
+                Some(f) => {
+                    if f.link_credit != Some(0) {
+                        obs.fails.push(("drain-credit-not-zero".into(), format!("the flow answering a drain shows link-credit {:?}", f.link_credit)));
+                    }
+                    if f.delivery_count != Some(l) {
+                        obs.fails.push((
+                            "drain-delivery-count".into(),
+                            format!("the flow answering a drain shows delivery-count {:?}; all credit used or given back means {l}", f.delivery_count),
+                        ));
+                    }
+                }
+            }
+        }
+        // (2b) only a drain request lets the sender advance its delivery-count without sending: in any other
+        // step a flow from the sender must report exactly initial + deliveries (+ earlier drains)
+        if !matches!(flow_sent, Some((_, _, true))) {
+            let (_, dc_at_mark) = sender_counts(&c.peer.trace[..mark], lib_handle, idc);
+            let mut running = dc_at_mark;
+            let mut in_progress = false;
+            for w in &c.peer.trace[mark..] {
+                if w.dir != Dirn::FromLib {
+                    continue;
+                }
+                match &w.body {
+                    Body::Perf(Performative::Transfer(t)) if t.handle.0 == lib_handle => {
+                        if !in_progress {
+                            running = running.wrapping_add(1);
+                        }
+                        in_progress = t.more;
+                    }
+                    Body::Perf(Performative::Flow(f)) if f.handle.as_ref().map(|h| h.0) == Some(lib_handle) => {
+                        if let Some(x) = f.delivery_count {
+                            if x != running {
+                                obs.fails.push((
+                                    "credit-given-back-without-drain".into(),
+                                    format!("after {:?} (no drain requested) the sender reports delivery-count {x} although it has only reached {running} by sending", ev),
+                                ));
+                                running = x;
+                            }
+                        }
+                        if f.drain && flow_sent.is_some() {
+                            obs.fails.push((
+                                "drain-flag-not-cleared".into(),
+                                format!("after {:?} (drain=false) the sender's flow still carries drain=true", ev),
+                            ));
+                        }
+                    }
+                    _ => {}
+                }
+            }
+        }
+        // (3) a send waiting for credit completes once credit is there (default schedule, quiescent state)
+        let pending = queued.saturating_sub(started_after);
+        if let Some(l) = limit {
+            let count = snd_dc;
+            let drained = matches!(flow_sent, Some((_, _, true)));
+            if pending > 0 && sdiff(l, count) > 0 && !drained && !last_was_drain(&events[..=i]) {
+                obs.fails.push((
+                    "blocked-send-not-woken".into(),
+                    format!("{pending} message(s) are waiting although the receiver's limit {l} leaves {} credit (delivery-count_snd {count})", sdiff(l, count)),
+                ));
+            }
+            if pending > 0 {
+                was_blocked = true;
+            } else if was_blocked {
+                obs.blocked_then_woken += 1;
+                was_blocked = false;
+            }
+        } else if pending > 0 {
+            was_blocked = true;
+        }
+        obs.state_keys.push(h64(&(
+            started_after,
+            limit.map(|l| sdiff(l, idc)),
+            pending,
+            log.lock().unwrap().done.len(),
+        )));
+    }
+    let _ = tx.send(SendCmd::Stop);
+    obs.fails.sort();
+    obs.fails.dedup();
+    obs.trace = trace_to_strings(&c.peer.trace);
+    obs
+}
+
+fn last_flow(evs: &[Ev]) -> Ev {
+    evs.iter().rev().find(|e| !matches!(e, Ev::A1 | Ev::A3)).copied().unwrap_or(Ev::A1)
+}
+fn last_was_drain(evs: &[Ev]) -> bool {
+    // after a drain the sender holds no credit until the next flow
+    matches!(last_flow(evs), Ev::D2)
+}
+
+fn run_history(idc: u32, evs: Vec<Ev>) -> (HistOut, usize, usize) {
+    let scen: Scenario<Obs> = {
+        let evs = evs.clone();
+        Arc::new(move || {
+            let evs = evs.clone();
+            Box::pin(scenario(idc, evs))
+        })
+    };
+    let ex = run_exec(vec![], &RunCfg::none(), &scen);
+    let mut out = HistOut::default();
+    let mut multi = 0;
+    let mut woken = 0;
+    match ex.out {
+        Some(o) => {
+            out.executed = o.executed;
+            out.fails = o.fails.into_iter().map(|(s, d)| (s, format!("initial-delivery-count {idc}: {d}"))).collect();
+            out.state_keys = o.state_keys;
+            out.trace = o.trace;
+            out.machinery = o.machinery;
+            multi = o.multi_frame_deliveries;
+            woken = o.blocked_then_woken;
+        }
+        None => {
+            out.executed = evs.len();
+            out.machinery = Some(format!("scenario died: panics {:?} watchdog {}", ex.panics, ex.watchdog));
+        }
+    }
+    if ex.spun {
+        out.machinery = Some("busy loop (spin) detected".into());
+    }
+    (out, multi, woken)
+}
+
+pub fn run(ctx: &Ctx) -> Outcome {
     let mut out = Outcome::new("model_checking");
-    out.machinery_errors.push("check C08 is not built yet".into());
+    if let Some(p) = &ctx.replay {
+        return replay(p, out);
+    }
+    let depth = if ctx.quick() { 4 } else { 6 };
+    let deadline = Instant::now() + Duration::from_secs_f64(ctx.budget_s);
+    let idcs: Vec<u32> = if ctx.quick() { vec![0, u32::MAX - 1] } else { vec![0, u32::MAX - 2, u32::MAX - 1, u32::MAX] };
+    let mut states = 0;
+    let mut transitions = 0;
+    let mut executions = 0;
+    let mut truncated = false;
+    let mut samples = vec![];
+    let multi = std::sync::atomic::AtomicUsize::new(0);
+    let woken = std::sync::atomic::AtomicUsize::new(0);
+    for idc in idcs.iter().copied() {
+        let st = search(ALPHABET.len(), depth, ctx.threads, deadline, |h| {
+            let (o, m, w) = run_history(idc, h.iter().map(|i| ALPHABET[*i]).collect());
+            multi.fetch_add(m, std::sync::atomic::Ordering::Relaxed);
+            woken.fetch_add(w, std::sync::atomic::Ordering::Relaxed);
+            o
+        });
+        executions += st.executions;
+        states += st.distinct_states;
+        transitions += st.distinct_transitions;
+        truncated |= st.truncated;
+        for m in st.machinery {
+            out.machinery_errors.push(m);
+        }
+        for (h, sig, detail, trace) in st.violations {
+            let evs: Vec<String> = h.iter().map(|i| format!("{:?}", ALPHABET[*i])).collect();
+            out.violation(sig, format!("history {:?}: {detail}", evs), json!({"kind": "history", "idc": idc, "events": h, "event_names": evs, "trace": trace}));
+        }
+        if samples.len() < 2 {
+            samples.extend(st.sample_traces.into_iter().take(1));
+        }
+    }
+    let sched = schedule_wakeup(ctx, deadline, &mut out);
+    out.set("states", states.max(1));
+    out.set("transitions", transitions.max(1) + sched.1);
+    out.set("traces_validated_against_impl", executions + sched.0);
+    out.set("history_executions", executions);
+    out.set("schedule_executions", sched.0);
+    out.set("multi_frame_deliveries_observed", multi.load(std::sync::atomic::Ordering::Relaxed) as u64);
+    out.set("blocked_sends_later_woken", woken.load(std::sync::atomic::Ordering::Relaxed) as u64);
+    out.set("samples", json!(samples));
+    out.set("exhaustive", !truncated);
+    out.set("bound", format!("histories of depth {depth} over {} events x initial delivery-counts {:?}; wake-up schedules: {}", ALPHABET.len(), idcs, sched.2));
+    out.set("rule", "states = distinct (deliveries started, receiver limit, sends waiting, sends completed) at quiescence; every state reached by executing the real sender link, session and connection engines against the scripted receiver");
+    out.assume("the scripted receiver acts at quiescent points; a delivery is judged against the last flow the receiver sent before the step in which the delivery started");
+    out.assume("schedule exploration: tokio-poll granularity plus the preempt point 'sender-credit-wait' (cfg fe2o3_amqp_verif) which stands for another worker thread running between the failed credit check and the start of the wait");
+    out
+}
+
+/// "send blocked on zero credit, peer grants 1 at the same instant": all schedules within the bound
+fn schedule_wakeup(ctx: &Ctx, deadline: Instant, out: &mut Outcome) -> (u64, u64, String) {
+    let scen: Scenario<(bool, Vec<String>, Option<String>)> = Arc::new(|| {
+        Box::pin(async {
+            let mut auto = Auto::default();
+            auto.accept_transfers = true;
+            let mut c = match scen::open_client(auto, 512).await {
+                Ok(c) => c,
+                Err(e) => return (false, vec![], Some(e)),
+            };
+            let mut session = match scen::begin(&mut c, Session::builder()).await {
+                Ok(s) => s,
+                Err(e) => return (false, vec![], Some(e)),
+            };
+            let sender = match drive(&mut c.peer, Sender::attach(&mut session, "s1", "q"), scen::H).await {
+                Some(Ok(s)) => s,
+                _ => return (false, vec![], Some("attach failed".into())),
+            };
+            let lib_handle = c.peer.links.last().map(|l| l.lib_handle).unwrap_or(0);
+            let (tx, log, _task) = scen::spawn_sender_task(sender);
+            settle(&mut c.peer, 1).await;
+            // the racing step: the application starts a send with zero credit and the receiver grants one
+            // credit, at the same virtual instant
+            let _ = tx.send(SendCmd::Send { body_len: 20 });
+            c.peer.grant(0, lib_handle, 1);
+            // horizon: 100 s of virtual time
+            let mut done = false;
+            for _ in 0..100 {
+                tokio::time::sleep(Duration::from_secs(1)).await;
+                c.peer.pump();
+                if !log.lock().unwrap().done.is_empty() {
+                    done = true;
+                    break;
+                }
+            }
+            let _ = tx.send(SendCmd::Stop);
+            (done, trace_to_strings(&c.peer.trace), None)
+        })
+    });
+    let bounds = if ctx.quick() {
+        Bounds::new(1)
+    } else {
+        Bounds::new(3).kind(Kind::Task, 2).kind(Kind::Select, 1).kind(Kind::Preempt, 2)
+    };
+    let cfg = RunCfg::default();
+    let fails = std::sync::Mutex::new(vec![]);
+    let st = explore(&cfg, &bounds, &scen, ctx.threads, deadline, |e| {
+        match &e.out {
+            None => fails.lock().unwrap().push(("machinery".to_string(), format!("scenario died {:?}", e.panics), e.points.clone(), vec![])),
+            Some((_, _, Some(m))) => fails.lock().unwrap().push(("machinery".to_string(), m.clone(), e.points.clone(), vec![])),
+            Some((false, tr, None)) => fails.lock().unwrap().push((
+                "lost-wakeup".to_string(),
+                "a send waiting for credit did not complete within 100 s of virtual time although the receiver granted one credit (the grant landed between the failed credit check and the start of the wait)".to_string(),
+                e.points.clone(),
+                tr.clone(),
+            )),
+            _ => {}
+        }
+        h64(&e.out.as_ref().map(|o| (o.0, o.1.len())))
+    });
+    for (s, d, points, trace) in fails.into_inner().unwrap() {
+        if s == "machinery" {
+            out.machinery_errors.push(d);
+        } else {
+            let dev: Vec<String> = points.iter().filter(|p| p.chosen != 0).map(|p| format!("{:?}={}", p.kind, p.chosen)).collect();
+            out.violation(s, format!("{d}; deviations from the default schedule: {:?}", dev), json!({"kind": "schedule", "schedule": points, "trace": trace}));
+        }
+    }
+    for d in &st.divergences {
+        out.machinery_errors.push(d.clone());
+    }
+    (
+        st.executions,
+        st.points_total,
+        format!("{} ({} executions, {} preempt points in the default run, level {:?} complete)", bounds.describe(), st.executions, st.choice_points_by_kind[Kind::Preempt.idx()], st.completed_level),
+    )
+}
+
+fn replay(p: &std::path::Path, mut out: Outcome) -> Outcome {
+    let s = std::fs::read_to_string(p).unwrap_or_default();
+    let j: serde_json::Value = serde_json::from_str(&s).unwrap_or_default();
+    let r = &j["replay"];
+    if r["kind"] == "history" {
+        let idc = r["idc"].as_u64().unwrap_or(0) as u32;
+        let evs: Vec<Ev> = r["events"].as_array().map(|a| a.iter().filter_map(|x| x.as_u64()).map(|i| ALPHABET[i as usize]).collect()).unwrap_or_default();
+        println!("replaying idc={idc} {:?}", evs);
+        let (o, _, _) = run_history(idc, evs);
+        for l in &o.trace {
+            println!("  {l}");
+        }
+        for (s, d) in o.fails {
+            println!("  FAIL {s}: {d}");
+            out.violation(s, d, r.clone());
+        }
+    } else {
+        println!("schedule replay: re-running the wake-up exploration (quick bounds)");
+        let ctx = Ctx {
+            id: "C08".into(),
+            tier: vlib::report::Tier::Quick,
+            seed: 0,
+            budget_s: 60.0,
+            start: Instant::now(),
+            replay: None,
+            threads: 8,
+        };
+        let mut o2 = Outcome::new("model_checking");
+        schedule_wakeup(&ctx, Instant::now() + Duration::from_secs(60), &mut o2);
+        out.violations = o2.violations;
+    }
+    out.set("states", 1);
+    out.set("transitions", 1);
+    out.set("traces_validated_against_impl", 1);
+    out.set("samples", json!([r]));
     out
 }
